@@ -33,6 +33,15 @@ def mc_place(ctx):
         lens = [1, 15, 16, 17, 48, 49, 100, 1000, 2000, 3000, 4064, 4079, 4080, 4081, 4095, 4096]
         units = '66..%d' % (2 * PAGE_UNITS + 40)
         alpha = [0, 255, 97, 10, 46, 34]
+    # limits that are not multiples of 32: the units around both page ends (where the page rule bites) and a thinned rest
+    if ctx.thorough():
+        uunits = '66..%d' % (2 * PAGE_UNITS + 40)
+        resid = [1, 2, 3, 15, 16, 17, 29, 30, 31]
+        lens_u = [1, 16, 17, 1000, 4080, 4081, 4095, 4096]
+    else:
+        uunits = '((%d..%d) \\cup (%d..%d) \\cup {66 + 16 * i : i \\in 0..60})' % (PAGE_UNITS - 135, PAGE_UNITS + 3, 2 * PAGE_UNITS - 135, 2 * PAGE_UNITS + 3)
+        resid = [1, 2, 3, 15, 16, 17, 29, 30, 31]
+        lens_u = [1, 1000, 4081, 4096]
     rnd = random.Random(ctx.seed)
     longs = [[103, 111, 112, 104, 101, 114, 115],
              [rnd.randrange(256) for _ in range(4096)],
@@ -46,11 +55,14 @@ EXTENDS FileFormatPlace
 MCHdrLens == {32, 64, 160, 192, 512, 544}
 MCLimitUnits == %s
 MCNameLens == {%s}
+MCUUnits == %s
+MCResid == {%s}
+MCNameLensU == {%s}
 MCAlphabet == {%s}
 MCLongNames == {%s} \\cup {<<a>> : a \\in 0..255}
 MCMetaLens == 0..520
 ====
-''' % (units, ', '.join(map(str, sorted(set(lens)))), ', '.join(map(str, alpha)),
+''' % (units, ', '.join(map(str, sorted(set(lens)))), uunits, ', '.join(map(str, resid)), ', '.join(map(str, lens_u)), ', '.join(map(str, alpha)),
        ', '.join('<<' + ', '.join(map(str, s)) + '>>' for s in longs))
     return mc
 
@@ -72,6 +84,8 @@ def run_vectors(ctx, name_reqs):
     first = 66 + (ctx.seed * 37) % 200
     inp = {'vectors': vectors, 'sweep_lens': sorted(set(sweep_lens)), 'sweep_from': first,
            'sweep_to': first + ctx.pick(PAGE_UNITS + 8, 4 * PAGE_UNITS), 'hdr_lens': [32, 64, 160, 192, 512, 544],
+           # every byte value of a page period as the limit (the unaligned ones; the aligned ones are the rows above)
+           'byte_from': 32 * first, 'byte_to': 32 * first + 16384, 'sweep_lens_u': [1, 17, 4081, 4096] if not ctx.thorough() else [1, 16, 17, 48, 1000, 4064, 4080, 4081, 4095, 4096],
            'rand_names': ctx.pick(3000, 40000), 'names': name_reqs}
     recs, rc, out = ctx.run_harness(PKG, 'TestVerifC10(Vec|Names)', inp=inp, timeout=1500)
     summ = [x for x in recs if x.get('kind') == 'summary']
@@ -99,7 +113,7 @@ def run_vectors(ctx, name_reqs):
 
     obs = [x for x in recs if x.get('kind') in ('place', 'hash', 'hdr')]
     nobs = [x for x in recs if x.get('kind') == 'summary2'][0]['observations']
-    chunk = 3000
+    chunk = 20000
     good = 0
     for i in range(0, len(obs), chunk):
         part = obs[i:i + chunk]
@@ -169,7 +183,7 @@ def run(ctx):
         'values stay below 2^31 in the operation sequences (TLC integers); 2^64-1 is exercised by the C06 vectors',
         'metadata written by the library can only be 143..512 bytes long (fixed keys); shorter blocks are covered by the header vectors only',
         'names longer than 4096 bytes are outside the property and not generated',
-        'allocation limits are multiples of 32 (as in every well-formed file)',
+        'allocation limits may be any byte offset (a foreign writer may store the unrounded end of its last record); the library must then round up itself',
         'a writer whose metadata differs from the file\'s (same file name, other import path; same or different metadata length) must leave the file '
         'exactly as it is: metadata text, header, layout and content (its increments must not appear)',
     ]
@@ -186,7 +200,7 @@ def run(ctx):
     pick_ids = [1, 3, 4, 7, 8, 11, 13, 18] if ctx.thorough() else [1, 4, 7, 8, 11, 13]
     small = [n for n in names if n['id'] in pick_ids]
     metas_bfs = [0, 95, 96, 512] if ctx.thorough() else [96, 512]
-    mc = mc_ops(small, metas_bfs, ['lib1'], [1], ctx.pick(6, 7))
+    mc = mc_ops(small, metas_bfs, ['lib1', 'indx'], [1], ctx.pick(6, 7))
     r = ctx.tlc('MCFileFormatOps', cfg='FileFormatOps.cfg', files={'MCFileFormatOps.tla': mc}, label='FileFormatOps-bfs', timeout=3000)
     if not r.ok:
         raise Infra('FileFormatOps: the specification itself violates %s %s\n%s' % (r.error, r.error_name, r.out[-3000:]))
@@ -194,7 +208,7 @@ def run(ctx):
     # ---- 3. behaviours replayed into real files -----------------------------
     lib_metas = [143, 159, 160, 161, 300, 479, 480, 481, 511, 512]
     depth = ctx.pick(22, 30)
-    mc = mc_ops(names, lib_metas, ['lib1', 'lib2', 'ind'], [1, 3, 1000], depth)
+    mc = mc_ops(names, lib_metas, ['lib1', 'lib2', 'ind', 'indx'], [1, 3, 1000], depth)
     cfg_sim = ('SPECIFICATION Spec\nCHECK_DEADLOCK FALSE\nCONSTANTS\n Names <- MCNames\n MetaLens <- MCMetaLens\n'
                ' Actors <- MCActors\n Incs <- MCIncs\n MaxOps <- MCMaxOps\n')
     nwalk = ctx.pick(70, 900)
